@@ -13,7 +13,7 @@ from ..gen import inject, progs
 
 ID = "C08"
 LEVEL = "exploration"
-TECHNIQUE = "runtime contract (icontract post-condition on the real convert_code_string) over construct x position injection"
+TECHNIQUE = "runtime contract (icontract post-condition on the real convert_code_string) over construct x position injection; marker-trace monitor (differential event log) for the no-discard clause"
 RULE = ("host programs (hand-written position catalogue + seeded generated programs) x every unsupported construct "
         "(statement forms: try/except/finally/except*, raise, with, assert, del, async def/for/with, await, star "
         "import, match, type alias, generator defs; expression forms yield / yield from / await wrapped around every "
@@ -21,13 +21,16 @@ RULE = ("host programs (hand-written position catalogue + seeded generated progr
         "statement/expression position of the host (module, function, method, class body, def/class nested in a "
         "loop, loop body, loop else, if/elif/else arms, after an interrupt in the same block); plus illegal "
         "break/continue/return placements and a second star in every target pattern (reference: CPython's compile "
-        "refuses). Distinct by (construct, position kind, host, options); every case is non-trivial.")
+        "refuses). Distinct by (construct, position kind, host, options); every case is non-trivial. Last sentence of the "
+        "property (nothing with a run-time effect is discarded): a trace monitor - `mark(n)` before every statement and at "
+        "the end of every block of hand-written loop-else / dead-tail idioms and of 1500 (thorough: 12000) generated "
+        "clean-pool programs; the marker sequence of the translation must equal the original's.")
 ASSUMPTIONS = ["the independent walker (lib/olverif/unsupported.py) defines 'unsupported' exactly as the README list + the four illegal placements",
                "any exception raised by the conversion counts as rejection"]
 EXHAUSTIVE = {"quick": False, "thorough": False}
 FLOOR = {"quick": 5000, "thorough": 50000}
 REQUIRED_MONITORS = ["C08.rejects-unsupported"]
-SIZES = {"quick": dict(gen_hosts=8, maxpos=20), "thorough": dict(gen_hosts=150, maxpos=None)}
+SIZES = {"quick": dict(gen_hosts=8, maxpos=20, mark_gen=1500), "thorough": dict(gen_hosts=150, maxpos=None, mark_gen=12000)}
 
 HOSTS = {
     "positions": '''x = 1
@@ -159,8 +162,171 @@ def judge(rec, src, cfg, construct, place, host, illegal=False):
     rec.ok((construct, place, host, cfg))
 
 
+# ---------------------------------------------------------------- nothing with a run-time effect is discarded
+
+class _Marker(ast.NodeTransformer):
+    """Put `mark(<n>)` before every statement and at the end of every block of the program."""
+
+    def __init__(self):
+        self.n = 0
+
+    def _m(self):
+        self.n += 1
+        return ast.Expr(ast.Call(ast.Name("mark", ast.Load()), [ast.Constant(self.n)], []))
+
+    def _block(self, stmts):
+        out = []
+        for st in stmts:
+            if not isinstance(st, (ast.Global, ast.Nonlocal)):
+                out.append(self._m())
+            out.append(self.visit(st))
+        out.append(self._m())
+        return out
+
+    def generic_visit(self, node):
+        for f in ("body", "orelse"):
+            v = getattr(node, f, None)
+            if isinstance(v, list) and v and isinstance(v[0], ast.stmt):
+                setattr(node, f, self._block(v))
+        return node
+
+
+def marked(src):
+    t = ast.parse(src)
+    m = _Marker()
+    m.visit(t)
+    ast.fix_missing_locations(t)
+    return ast.unparse(t), m.n
+
+
+def mark_env():
+    log = []
+    return {"__name__": "__main__", "mark": lambda k: log.append(("mark", k))}, log
+
+
+def judge_marked(rec, name, src, cfg):
+    """Every marker that fires in the original fires, in the same order, in the translation."""
+    from .. import observe
+    try:
+        msrc, n = marked(src)
+        compile(msrc, "<m>", "exec")
+    except (SyntaxError, ValueError, RecursionError):
+        rec.count("marker-host-unusable")
+        return
+    if findings.triggered("C01", src=msrc, cfg=cfg):
+        rec.count("marker-host-in-tainted-pool (skipped)")
+        return
+    o, to = rt.guarded(lambda: observe.differential(msrc, cfg, mkenv=mark_env, keep=True), 30)
+    if to:
+        rec.inconc("case-timeout")
+        return
+    if o.ood:
+        rec.count("marker-host-out-of-domain")
+        return
+    case = {"kind": "marked", "name": name, "src": src, "cfg": list(cfg)}
+    if not o.ok:
+        rec.violation("part-with-run-time-effect-discarded-or-changed:" + o.status, case, o.detail)
+        return
+    fired = len({e[1] for e in (o.log1 or [])})
+    rec.count("marker-programs-held")
+    rec.count("markers-placed", n)
+    rec.count("markers-fired-in-original-and-translation", fired)
+    rec.ok(("marked", msrc, cfg), nontrivial=fired >= 3)
+
+
+MARK_HOSTS = {
+    "search-loop-else-return": """def find(xs, t):
+    for i, x in enumerate(xs):
+        if x == t:
+            break
+    else:
+        return -1
+    found = i * 10
+    return found
+print(find([1, 2, 3], 2), find([1], 5))
+""",
+    "leave-two-loops": """out = []
+for a in range(3):
+    for b in range(3):
+        if a * b == 2:
+            break
+    else:
+        continue
+    out.append((a, b))
+    break
+else:
+    out.append('none')
+print(out)
+""",
+    "while-else-break-tail": """n = 0
+while n < 5:
+    n += 1
+    k = 0
+    while k < n:
+        k += 1
+        if k == 2:
+            break
+    else:
+        continue
+    n += 10
+print(n)
+""",
+    "if-all-branches-interrupt": """def f(x):
+    for i in range(4):
+        if i == x:
+            r = 'hit'
+            break
+        elif i > 2:
+            r = 'big'
+            continue
+        else:
+            continue
+        r = 'dead'
+    else:
+        r = 'else'
+    return r
+print(f(1), f(9))
+""",
+    "class-in-loop-with-interrupts": """res = []
+for i in range(3):
+    class K:
+        v = i
+        if v == 1:
+            w = 'one'
+        else:
+            w = 'other'
+    if K.v == 1:
+        res.append(K.w)
+        continue
+    res.append(K.v)
+print(res)
+""",
+}
+
+
+def marker_layer(rec, size):
+    idx = 0
+    hosts = list(HOSTS.items()) + list(MARK_HOSTS.items())
+    for i in range(size["mark_gen"]):
+        seed = rec.seed * 9176 + 31 * i + 5
+        src, feats = progs.generate(seed)
+        hosts.append(("gen:%d" % seed, src))
+    for name, src in hosts:
+        idx += 1
+        if idx % rec.nshards != rec.shard:
+            continue
+        if rec.out_of_budget():
+            rec.truncated += 1
+            continue
+        fixed = name in HOSTS or name in MARK_HOSTS
+        cfgs = envs.CFGS if fixed or rec.tier == "thorough" else [envs.CFGS[(idx + rec.seed) % 8], envs.CFGS[(idx + rec.seed + 5) % 8]]
+        for cfg in cfgs:
+            judge_marked(rec, name, src, cfg)
+
+
 def run_shard(rec):
     size = SIZES[rec.tier]
+    marker_layer(rec, size)
     rng = random.Random(rec.seed * 101 + 7)
     idx = 0
     for hname, hsrc in host_programs(rec, size):
@@ -191,6 +357,8 @@ def run_shard(rec):
 
 
 def replay(case, rec):
+    if case.get("kind") == "marked":
+        return judge_marked(rec, case["name"], case["src"], tuple(case["cfg"]))
     judge(rec, case["src"], tuple(case["cfg"]), case.get("construct"), case.get("place"), case.get("host"))
 
 
